@@ -77,6 +77,10 @@ func (r *Reqs) Previous(ctx context.Context, p module.Version) (module.Version, 
 			selected = v.Version
 		}
 	}
+	if selected == "" {
+		// mvs.Reqs: "none" means that there is no earlier version.
+		selected = "none"
+	}
 	return module.Version{Path: p.Path, Version: selected}, nil
 }
 
